@@ -94,6 +94,7 @@ func init() {
 			"inlined), never accepts without the member's verdict, and re-attaches the discriminator to results; R-CONVSIB - the four native-to-wire converters share the " +
 			"CanConvert-guarded shape. R-DISCTYPE - every store under the discriminator key has the one-of's key type (what Validate asserts); R-CHILDREN - every loop over a container's data calls a data method of every child-schema field on every way round. NOT decided: value equality of round trips, idempotence, CBOR width normalisation, the treat-empty-as-default identification.",
 		Rules: []func(*Ctx){
+			func(c *Ctx) { c.ruleFits("R-FITS") },
 			func(c *Ctx) { c.ruleSuppliedNonNil("R-SUPPLIEDNONNIL") },
 			func(c *Ctx) { c.ruleCodec("R-CODEC"); c.R.Floor("R-CODEC", 3) },
 			func(c *Ctx) { c.ruleStoreAll("R-STOREALL") },
@@ -124,6 +125,8 @@ func init() {
 			"len(properties) == 1 (R-MAPORDER/R-EXPLICIT in C04/C12); R-SYMM - one-of dispatch: the member's verdict decides on every operation, data is stripped of a " +
 			"non-inlined discriminator by copy, results get it back. R-NOCOERCE - as in C02 (Validate / Serialize do not coerce discriminators or fields). R-UNSETNIL - the presence function of struct-mapped objects can report a nil pointer, slice and map field as unset (what Unserialize leaves for an absent property). R-DISABLED - every PropertySchema method that hands data to its type (Unserialize, Validate, Serialize, data-mode ValidateCompatibility) returns a possibly-nil error only where Disabled is known false (branch on the flag, or a helper whose nil result implies it). NOT decided: the full truth table over interacting rule graphs and presence subsets.",
 		Rules: []func(*Ctx){
+			func(c *Ctx) { c.ruleJSONNum("R-JSONNUM") },
+			func(c *Ctx) { c.ruleSubObjRules("R-SUBOBJRULES") },
 			func(c *Ctx) { c.ruleSuppliedNonNil("R-SUPPLIEDNONNIL") },
 			func(c *Ctx) { c.ruleDiscPresent("R-DISCPRESENT"); c.R.Floor("R-DISCPRESENT", 2) },
 			func(c *Ctx) { c.ruleRebuilt("R-REBUILT"); c.R.Floor("R-REBUILT", 5) },
@@ -144,6 +147,7 @@ func init() {
 			"R-MEMBER - enum acceptance is controlled by equality with a table key, a failed pattern match rejects; R-BOOLWORDS - the fourteen documented words with their " +
 			"polarity; R-ERRDROP - no error of a repo call is discarded. R-CHILDREN - as in C01; R-NOCOERCE - no text-parsing conversion (strconv.Parse*, unit parser) is reachable from Validate / Serialize / ValidateType / SerializeType (edges behind a reflect-kind gate that excludes strings are cut; edges into ValidateCompatibility are not followed - assumption). R-CONVKIND - every reflect Convert to a statically known scalar type reachable from Validate / Serialize happens only for source kinds that agree with the target (integer widths among themselves, integer or float to float, otherwise the same kind): established by Kind() comparisons or by a kind predicate of the repo that is evaluated here over all pairs of kinds. NOT decided: that the lenient conversions denote the right number; unit arithmetic (C16).",
 		Rules: []func(*Ctx){
+			func(c *Ctx) { c.ruleSerVal("R-SERVAL") },
 			func(c *Ctx) { c.ruleFmtPrec("R-FMTPREC") },
 			func(c *Ctx) { c.ruleGrammar("R-GRAMMAR"); c.R.Floor("R-GRAMMAR", 2) },
 			func(c *Ctx) { c.ruleConvKind("R-CONVKIND"); c.R.Floor("R-CONVKIND", 4) },
@@ -169,6 +173,7 @@ func init() {
 			"hence level 'other', not a proof of totality.",
 		Assumptions: []string{wellFormed},
 		Rules: []func(*Ctx){
+			func(c *Ctx) { c.ruleStableID("R-STABLEID") },
 			func(c *Ctx) { c.ruleUnsetNil("R-UNSETNIL"); c.R.Floor("R-UNSETNIL", 3) },
 			func(c *Ctx) { c.ruleAssert("R-ASSERT", c.scopeData()); c.R.Floor("R-ASSERT", 14) },
 			func(c *Ctx) { c.ruleNilGuard("R-NILGUARD", c.scopeData()); c.R.Floor("R-NILGUARD", 30) },
@@ -246,6 +251,7 @@ func init() {
 			"R-DECODEEXIT - the failure branch of a Decode inside a message loop cannot lead back to it; R-RECOVER covers CallSignal as well as CallStep. R-FRESHDEC - the target of every Decode inside a message loop is allocated per iteration (a message that omits a field cannot inherit the previous message's). NOT decided: byte-level behaviour of the CBOR decoder on truncated input; behaviour of user step code.",
 		Assumptions: []string{"channel semantics of Go (send on closed channel panics; send without receiver blocks)"},
 		Rules: []func(*Ctx){
+			func(c *Ctx) { c.ruleCloseOnce("R-CLOSEONCE") },
 			func(c *Ctx) { c.rulePluginPanic("R-PLUGINPANIC") },
 			func(c *Ctx) { c.ruleFreshDecode("R-FRESHDEC", c.scopePkg("atp")); c.R.Floor("R-FRESHDEC", 2) },
 			func(c *Ctx) { c.ruleDecodeExit("R-DECODEEXIT", c.scopePkg("atp")); c.R.Floor("R-DECODEEXIT", 2) },
@@ -333,6 +339,7 @@ func init() {
 			"reflection inside the struct mapper (covered by its recover scope).",
 		Assumptions: []string{"table entries produced by the struct mapper are non-nil (A2 holds for wire-built schemas too)"},
 		Rules: []func(*Ctx){
+			func(c *Ctx) { c.ruleStableID("R-STABLEID") },
 			func(c *Ctx) { c.ruleRebuilt("R-REBUILT"); c.R.Floor("R-REBUILT", 5) },
 			func(c *Ctx) {
 				roots := append(c.entryLoad(), c.entryData()...)
@@ -387,6 +394,7 @@ func init() {
 			"of rejections beyond kind, bounds and the loops' verdict classes.",
 		Assumptions: []string{wellFormed},
 		Rules: []func(*Ctx){
+			func(c *Ctx) { c.ruleStableID("R-STABLEID") },
 			func(c *Ctx) { c.ruleDescend("R-DESCEND"); c.R.Floor("R-DESCEND", 2) },
 			func(c *Ctx) { c.ruleReflex("R-REFLEX") },
 			func(c *Ctx) { c.ruleEffect("R-EFFECT", c.entryData("ValidateCompatibility"), false, true) },
@@ -419,6 +427,7 @@ func init() {
 			"positive divisor. NOT decided: the numeric round trip itself, float tolerance, negative component rendering for values above 2^53, FormatLongFloat's %f rendering.",
 		Assumptions: []string{"unit multipliers are positive (NewUnits does not enforce it; a zero or negative multiplier is outside the rule's guard recognition)"},
 		Rules: []func(*Ctx){
+			func(c *Ctx) { c.ruleFmtPrecUnits("R-FMTPREC") },
 			func(c *Ctx) { c.ruleSibling("R-SIBLING") },
 			func(c *Ctx) { c.ruleTrim("R-TRIM") },
 			func(c *Ctx) { c.ruleGrammar("R-GRAMMAR"); c.R.Floor("R-GRAMMAR", 2) },
@@ -510,6 +519,7 @@ func init() {
 			"mutexes are the only synchronisation to recognise. The receiver-mutex discharge never applies to package-level memory; R-STEPDATA - step-data table discipline. NOT decided: races inside third-party packages; result equality with a sequential run.",
 		Assumptions: []string{wellFormed, "regexp.Regexp is documented safe for concurrent use"},
 		Rules: []func(*Ctx){
+			func(c *Ctx) { c.ruleDeferUnlockSchema("R-DEFERUNLOCK") },
 			func(c *Ctx) { c.ruleStepData("R-STEPDATA") },
 			func(c *Ctx) {
 				entries := append(c.entryData(pureAPI...), c.entryStep()...)
